@@ -32,6 +32,7 @@ type zzFinTx struct {
 	preFin  bool
 	preSnap crypto.Hash
 	preUtxo [][]byte
+	preTopo uint64
 }
 
 func zzKeyPtr() *crypto.Key { k := crypto.Key(zzHash()); return &k }
@@ -125,7 +126,16 @@ func zzFinSetup(kinds []int, allowPreFinalized bool) *zzFinEnv {
 		if allowPreFinalized && vr.Bool() {
 			// already finalized by an earlier snapshot: its record and outputs exist, possibly locked by a spender
 			ft.preFin = true
-			ft.preSnap = zzHash()
+			// ledger invariant: the finalization record names a stored snapshot (of another node,
+			// at an arbitrary time and topology position) that contains the transaction
+			psn := &common.Snapshot{Version: common.SnapshotVersionCommonEncoding, NodeId: zzHash(), RoundNumber: vr.U64(),
+				References: &common.RoundLink{Self: zzHash(), External: zzHash()}, Timestamp: vr.U64(), Transactions: []crypto.Hash{ft.hash}}
+			vr.Assume(psn.NodeId != e.node)
+			ft.preTopo = vr.U64()
+			if err := s.ZZPutSnapshot(psn, ft.preTopo); err != nil {
+				panic(err)
+			}
+			ft.preSnap = psn.PayloadHash()
 			zzSet(s, graphFinalizationKey(ft.hash), ft.preSnap[:])
 			for _, u := range ver.UnspentOutputs() {
 				u.LockHash = zzHash()
@@ -144,6 +154,12 @@ func zzFinSetup(kinds []int, allowPreFinalized bool) *zzFinEnv {
 	}
 	sn.Hash = sn.PayloadHash()
 	e.snap = &common.SnapshotWithTopologicalOrder{Snapshot: sn, TopologicalOrder: vr.U64()}
+	for _, ft := range e.txs {
+		if ft.preFin {
+			vr.Assume(ft.preTopo < e.snap.TopologicalOrder) // positions are handed out in increasing order
+			vr.Assume(ft.preSnap != sn.Hash)
+		}
+	}
 	e.signers = []crypto.Hash{e.node}
 	return e
 }
@@ -151,14 +167,16 @@ func zzFinSetup(kinds []int, allowPreFinalized bool) *zzFinEnv {
 // ZZ_C15: finalizing a snapshot is atomic and idempotent.
 func ZZ_C15() {
 	var kinds []int
-	n := 1
-	if vr.Tier() > 0 {
-		n = vr.Choose(1, 2)
-	}
+	n := vr.Choose(1, 2)
+	narrow := n == 2 && vr.Tier() == 0 // quick tier: two-transaction snapshots only of fresh ordinary transactions
 	for i := 0; i < n; i++ {
-		kinds = append(kinds, vr.Choose(0, 2))
+		if narrow {
+			kinds = append(kinds, 0)
+		} else {
+			kinds = append(kinds, vr.Choose(0, 2))
+		}
 	}
-	e := zzFinSetup(kinds, true)
+	e := zzFinSetup(kinds, !narrow)
 	s := e.s
 	before := zzDump(s)
 	var err error
@@ -225,9 +243,22 @@ func ZZ_C15() {
 // ZZ_C17: one finalization step keeps "recorded total = genesis + deposits + mints - withdrawal submissions".
 func ZZ_C17() {
 	kind := vr.Choose(0, 2)
-	e := zzFinSetup([]int{kind}, false)
+	e := zzFinSetup([]int{kind}, true)
 	s := e.s
 	ft := e.txs[0]
+	if ft.preFin {
+		// included again by another node's snapshot: counted once, whatever the two timestamps
+		var err error
+		if vr.Catch(func() { err = s.WriteSnapshot(e.snap, e.signers) }) {
+			vr.Assert(false, "re-inclusion-does-not-crash")
+			return
+		}
+		vr.Assert(err == nil, "re-inclusion-succeeds")
+		_, now, rerr := s.ReadAssetWithBalance(e.asset)
+		vr.Assert(rerr == nil && now.Cmp(e.total) == 0, "re-included-transaction-is-not-counted-again")
+		vr.Cover("re-included")
+		return
+	}
 	if kind == 2 {
 		// supply invariant: the total covers every unconsumed output, hence the inputs being spent,
 		// and validation (C01) made inputs equal outputs; so the total covers the submitted amount
